@@ -1,13 +1,276 @@
-"""Bounded stand-in for C11: model equality after random operation histories on real projects (never counted as proved)."""
-from .common import Budget
+"""Bounded stand-in for C11 (never counted as proved): every file-system step of every lifecycle operation is made to fail
+(EIO, ENOSPC, EACCES, EXDEV, EROFS) or the process is killed right before it (fork + os._exit); after 'restart' the run-time
+contract of the property is checked on the real tree."""
+import errno
+import hashlib
+import json
+import os
+import random
+import shutil
+
+from .common import Budget, dir_scratch, script_header
 from .fsharness import run_histories
 
-RULE = "a case is one executed operation of a random history; non-trivial/distinct = distinct (operation kind, variant) pairs that actually executed"
+PRIMS = [("os", "replace"), ("os", "remove"), ("os", "makedirs"), ("os", "mkdir"), ("shutil", "rmtree"), ("shutil", "copytree"), ("os", "rmdir"), ("os", "unlink")]
+ERRNOS = [errno.EIO, errno.ENOSPC, errno.EACCES, errno.EXDEV, errno.EROFS]
+
+
+def ref_id(sp):
+    return hashlib.md5(json.dumps(sp, sort_keys=True).encode()).hexdigest()
+
+
+def snapshot_jobs(ws):
+    out = {}
+    if not os.path.isdir(ws):
+        return out
+    for d in os.listdir(ws):
+        files = {}
+        for dp, dn, fn in os.walk(os.path.join(ws, d)):
+            for f in fn:
+                files[os.path.relpath(os.path.join(dp, f), os.path.join(ws, d))] = open(os.path.join(dp, f), "rb").read()
+        out[d] = files
+    return out
+
+
+class Injector:
+    """patches the primitives in os / shutil (module attributes, as signac calls them) and counts calls"""
+
+    def __init__(self, fail_at=None, err=None, crash=False):
+        self.n, self.fail_at, self.err, self.crash = 0, fail_at, err, crash
+        self.saved = {}
+
+    def __enter__(self):
+        for mod, name in PRIMS:
+            m = __import__(mod)
+            orig = getattr(m, name)
+            self.saved[(mod, name)] = orig
+
+            def wrapper(*a, _orig=orig, _name=name, **k):
+                # only count operations inside the scratch tree
+                if not any(isinstance(x, str) and "verif_pybound_" in x for x in a):
+                    return _orig(*a, **k)
+                self.n += 1
+                if self.fail_at == self.n:
+                    if self.crash:
+                        os._exit(77)
+                    raise OSError(self.err, os.strerror(self.err))
+                return _orig(*a, **k)
+            setattr(m, name, wrapper)
+        return self
+
+    def __exit__(self, *a):
+        for (mod, name), orig in self.saved.items():
+            setattr(__import__(mod), name, orig)
+
+
+def build(d, rnd):
+    import signac
+    os.makedirs(d + "/p")
+    os.makedirs(d + "/q")
+    p, q = signac.init_project(d + "/p"), signac.init_project(d + "/q")
+    sps = [{"a": i} for i in range(3)]
+    for sp in sps:
+        j = p.open_job(sp).init()
+        j.doc["k"] = sp["a"]
+        open(j.fn("data.txt"), "w").write("payload %d" % sp["a"])
+        os.makedirs(j.fn("sub"), exist_ok=True)
+        open(j.fn("sub/nested.bin"), "wb").write(bytes([sp["a"]]))
+    q.open_job({"a": 1}).init()       # a colliding destination for move / clone
+    if rnd.random() < 0.7:
+        p.update_cache()              # a persistent state point cache from an earlier session
+        q.update_cache()
+    return p.path, q.path
+
+
+OPS = ["init-fresh", "init-existing", "rekey-free", "rekey-collide", "move-free", "move-collide", "clone-free", "clone-collide", "remove", "clear", "reset"]
+
+
+def do_op(op, ppath, qpath):
+    import signac
+    p, q = signac.Project(ppath), signac.Project(qpath)
+    if op == "init-fresh":
+        p.open_job({"a": 99}).init()
+    elif op == "init-existing":
+        p.open_job({"a": 0}).init()
+    elif op == "rekey-free":
+        p.open_job({"a": 0}).sp.b = 5
+    elif op == "rekey-collide":
+        p.open_job({"a": 0}).sp.a = 2
+    elif op == "move-free":
+        p.open_job({"a": 0}).move(q)
+    elif op == "move-collide":
+        p.open_job({"a": 1}).move(q)
+    elif op == "clone-free":
+        q.clone(p.open_job({"a": 0}))
+    elif op == "clone-collide":
+        q.clone(p.open_job({"a": 1}))
+    elif op == "remove":
+        p.open_job({"a": 0}).remove()
+    elif op == "clear":
+        p.open_job({"a": 0}).clear()
+    elif op == "reset":
+        p.open_job({"a": 0}).reset()
+
+
+def affected(op):
+    sp = {"a": 1} if op in ("move-collide", "clone-collide") else ({"a": 99} if op == "init-fresh" else {"a": 0})
+    new = {"rekey-free": {"a": 0, "b": 5}, "rekey-collide": {"a": 2}}.get(op)
+    return ref_id(sp), (ref_id(new) if new else None), sp, new
+
+
+def post_check(op, ppath, qpath, before_p, before_q, raised, crashed):
+    """the property's clauses after 'restart' (fresh Project objects)"""
+    import signac
+    from signac.errors import JobsCorruptedError
+    aid, nid, sp, newsp = affected(op)
+    after_p, after_q = snapshot_jobs(ppath + "/workspace"), snapshot_jobs(qpath + "/workspace")
+    touch_q = op.startswith(("move", "clone"))
+    # (i) every other job byte-identical
+    for name, before, after in (("p", before_p, after_p), ("q", before_q, after_q)):
+        for jid, files in before.items():
+            if jid in (aid, nid):
+                continue
+            if after.get(jid) != files:
+                return f"another job ({name}/{jid[:6]}) changed"
+        for jid in after:
+            if jid not in before and jid not in (aid, nid):
+                return f"an unrelated directory {name}/{jid[:6]} appeared"
+    # destination that was occupied must stay byte-identical
+    if op in ("move-collide", "clone-collide", "rekey-collide") and raised == "DestinationExistsError":
+        # (a process death between the steps of the refusal is judged by the general clauses below, not by 'byte-identical')
+        occ_before = before_q[aid] if op != "rekey-collide" else before_p[nid]
+        occ_after = (after_q if op != "rekey-collide" else after_p).get(aid if op != "rekey-collide" else nid)
+        if occ_after != occ_before:
+            return "the occupied destination job was modified"
+        if (op != "rekey-collide") and after_p.get(aid) != before_p.get(aid):
+            return "the source job of a refused operation was modified"
+        if op == "rekey-collide" and after_p.get(aid) != before_p.get(aid):
+            return "the job whose re-key was refused is not byte-identical"
+    # (ii) data files of the affected job exist completely under exactly one id directory (unless removal / clear / reset)
+    if op in ("move-collide", "clone-collide", "rekey-collide") and raised != "DestinationExistsError":
+        occ_before = before_q[aid] if op != "rekey-collide" else before_p[nid]
+        occ_after = (after_q if op != "rekey-collide" else after_p).get(aid if op != "rekey-collide" else nid)
+        if occ_after != occ_before:
+            return "the occupied destination job was modified (crash during a refused operation)"
+    if op not in ("remove", "clear", "reset", "init-fresh") and ("collide" not in op or raised != "DestinationExistsError"):
+        data = {k: v for k, v in before_p[aid].items() if not k.startswith("signac_statepoint")}
+        holders = []
+        for name, after in (("p", after_p), ("q", after_q)):
+            for jid, files in after.items():
+                if jid in (aid, nid) and all(files.get(k) == v for k, v in data.items()):
+                    holders.append((name, jid))
+        want = 2 if (op == "clone-free" and not raised and not crashed) else 1
+        if op == "clone-free":
+            if ("p", aid) not in holders:
+                return "clone damaged its source"
+        elif len(holders) != 1:
+            return f"the job's data files are complete under {len(holders)} directories ({holders}), expected exactly one"
+    # (iii)/(iv) every directory validates with ITS state point, or check() reports it
+    for name, path, after in (("p", ppath, after_p), ("q", qpath, after_q)):
+        pr = signac.Project(path)
+        try:
+            pr.check()
+            reported = set()
+        except JobsCorruptedError as e:
+            reported = set(e.job_ids)
+        for jid, files in after.items():
+            raw = files.get("signac_statepoint.json")
+            valid = False
+            if raw is not None:
+                try:
+                    v = json.loads(raw.decode())
+                    valid = ref_id(v) == jid
+                    if valid and jid in (aid, nid):
+                        legit = [s for s in (sp, newsp) if s is not None] + [{"a": 1}, {"a": 2}]
+                        if v not in legit:
+                            return f"directory {jid[:6]} validates with a state point the job never had: {v}"
+                except Exception:
+                    valid = False
+            if not valid and jid not in reported:
+                return f"directory {name}/{jid[:6]} does not validate and check() does not report it"
+            if valid and jid in reported:
+                return f"check() reports the valid directory {name}/{jid[:6]}"
+    # never a silent partial success: a normal return means the operation really happened
+    if not raised and not crashed:
+        if op == "rekey-free" and (nid not in after_p or aid in after_p):
+            return "re-key returned normally but the directory was not moved"
+        if op == "move-free" and (aid not in after_q or aid in after_p):
+            return "move returned normally but the directory was not moved"
+        if op in ("init-fresh", "init-existing", "reset") and aid not in after_p:
+            return "init/reset returned normally without a job directory"
+        if op in ("init-fresh", "init-existing", "reset") and "signac_statepoint.json" not in after_p[aid]:
+            return "init/reset returned normally without a state point file"
+    return None
+
+
+def scenario(seed, op, k, mode, err):
+    """k-th primitive call of `op` fails with `err` (mode 'fault') or the process dies right before it (mode 'crash')"""
+    rnd = random.Random(seed)
+    with dir_scratch() as d:
+        ppath, qpath = build(d, rnd)
+        before_p, before_q = snapshot_jobs(ppath + "/workspace"), snapshot_jobs(qpath + "/workspace")
+        raised = crashed = False
+        if mode == "crash":
+            pid = os.fork()
+            if pid == 0:
+                try:
+                    with Injector(fail_at=k, crash=True):
+                        do_op(op, ppath, qpath)
+                except BaseException:
+                    os._exit(1)
+                os._exit(0)
+            _, status = os.waitpid(pid, 0)
+            crashed = os.WEXITSTATUS(status) == 77
+            raised = os.WEXITSTATUS(status) == 1
+            reached = crashed
+        else:
+            with Injector(fail_at=k, err=err) as inj:
+                try:
+                    do_op(op, ppath, qpath)
+                except Exception as e:
+                    raised = type(e).__name__
+            reached = inj.n >= k
+        bad = post_check(op, ppath, qpath, before_p, before_q, raised, crashed)
+        return bad, reached
 
 
 def run(tier="quick", seed=0):
-    b = Budget(12 if tier == "quick" else 240)
-    r = run_histories(seed + 11, b, n_hist=40 if tier == "quick" else 2000, length=14 if tier == "quick" else 40)
-    r.update(scope="random histories (length 14 quick / 40 thorough) of {init, doc edit/reset, file, remove, clear/reset, re-key by 6 routes, move, clone, handle copy/deepcopy/pickle/reopen/drop, "
-                   "update_cache/restart/delete cache} over 2 projects, 4 keys x 8 values; model equality, check(), listing==len==membership, no temp files, live handles follow -- after every step", rule=RULE)
+    b = Budget(20 if tier == "quick" else 600)
+    r = run_histories(seed + 11, Budget(5 if tier == "quick" else 100), n_hist=12 if tier == "quick" else 600, length=14 if tier == "quick" else 40)
+    rnd = random.Random(1100 + seed)
+    evals, distinct = 0, set()
+    plan = []
+    for op in OPS:
+        for k in range(1, 9):
+            plan.append((op, k, "crash", None))
+            errs = ERRNOS if tier != "quick" else [rnd.choice(ERRNOS)]
+            for e in errs:
+                plan.append((op, k, "fault", e))
+    if tier == "quick":
+        rnd.shuffle(plan)
+    done_ops = {}
+    for (op, k, mode, err) in plan:
+        if not b.left() or any(f["key"].startswith("fault") for f in r["failures"]):
+            break
+        if done_ops.get((op, mode), 99) < k:
+            continue        # the operation has fewer than k file-system steps
+        try:
+            bad, reached = scenario(seed * 1000 + evals, op, k, mode, err)
+        except Exception:
+            import traceback
+            bad, reached = "scenario crashed: " + traceback.format_exc()[-600:], True
+        if not reached:
+            done_ops[(op, mode)] = min(done_ops.get((op, mode), 99), k)
+            continue
+        evals += 1
+        distinct.add((op, k, mode))
+        if bad:
+            r["failures"].insert(0, {"key": f"fault:{op}:{k}:{mode}", "description": f"{op}: step {k} {'process death' if mode == 'crash' else 'fails with ' + errno.errorcode.get(err, str(err))}: {bad}",
+                                     "script": script_header() + f"sys.path.insert(0, '/verif')\nfrom pybound.c11 import scenario\nbad, reached = scenario({seed * 1000 + evals}, {op!r}, {k}, {mode!r}, {err!r})\nassert not bad, bad\n"})
+    r["evaluations"] += evals
+    r["distinct_nontrivial"] += len(distinct)
+    r.update(scope="11 lifecycle operations (init fresh/existing, re-key free/colliding, move free/colliding, clone free/colliding, remove, clear, reset) on a 3-job project with nested payload "
+                   "and a second project; the k-th file-system step (k = 1..8 of os.replace/remove/makedirs/mkdir/rmdir/unlink, shutil.rmtree/copytree) fails with EIO/ENOSPC/EACCES/EXDEV/EROFS "
+                   "or the process dies right before it (fork + os._exit); quick tier: one errno per step, shuffled, until the budget is used; plus random API histories",
+             rule="a case is one (operation, step, fault kind) run that actually reached the step; distinct by that triple")
     return r
